@@ -290,6 +290,13 @@ def make_case(rng, tier, feat=(), corrupt=None, mode=None, py2=False, nframes=No
                 # protocol 0 writes these names verbatim (ASCII without NUL, LF, CR, SUB, backslash)
                 for j, d in enumerate(items):
                     d["name"]["v"] = ("p0.%d.%s" % (j, rng.choice(["cpu", "a b", "q'x", "t;k=v", "x" * 200]))).encode().hex()
+            if modelable and proto in (2, 3) and items and rng.random() < .6:
+                # integers beyond int32: LONG1 (Model/PyPickle.py_dumpsL, C13_decode_what_python_encodes_long), every byte length up to 127
+                for d in items:
+                    for k in ("ts", "val"):
+                        if d[k]["k"] == "i" and rng.random() < .5:
+                            bl = rng.choice([32, 33, 39, 40, 41, 63, 64, 65, 127, 128, 1000, 1014, 1015, rng.randrange(32, 1016)])
+                            d[k] = {"k": "i", "v": str(rng.choice([2 ** (bl - 1), 2 ** bl - 1, rng.randrange(2 ** (bl - 1), 2 ** bl)]))}
             if "latin1_p0" in feat:
                 proto = 0
             share = {} if rng.random() < .3 and not modelable else None
